@@ -134,6 +134,8 @@ type Opt struct {
 	Redirect string
 	// NoFile lowers the open-file limit of the child (ulimit -n), 0 = unchanged.
 	NoFile int
+	// FileBlocks limits the size of any regular file the child writes (ulimit -f, 512-byte blocks), 0 = unlimited.
+	FileBlocks int
 	// StdinPieces > 1 delivers Stdin in that many pieces with a pause between them (a producer that is slower
 	// than crd: reads return short).
 	StdinPieces int
@@ -162,6 +164,9 @@ func (r *Runner) Run(o Opt, args ...string) *Result {
 	limits := fmt.Sprintf("ulimit -t %d", cpu)
 	if o.NoFile > 0 {
 		limits += fmt.Sprintf("; ulimit -n %d", o.NoFile)
+	}
+	if o.FileBlocks > 0 {
+		limits += fmt.Sprintf("; ulimit -f %d", o.FileBlocks)
 	}
 	shArgs := append([]string{"-c", fmt.Sprintf("%s; exec \"$0\" \"$@\" %s", limits, o.Redirect), bin}, args...)
 	cmd := exec.CommandContext(ctx, "/bin/sh", shArgs...)
